@@ -98,8 +98,12 @@ package processorqueue
 //@   ensures result1 == nil ==> result0 != nil
 //@ iface QuotaResourceI.Inc
 //@   modifies now
+// giving the place in the quota back (for a concurrency quota: the slot): counted, so that an admitted request can be
+// shown to keep the place its admission took
+//@ ghost var gGivenBack int
 //@ iface QuotaResourceI.Dec
-//@   modifies now
+//@   modifies gGivenBack, now
+//@   ensures gGivenBack == old(gGivenBack) + 1
 //@ iface QuotaResourceI.Allowed
 //@   modifies gLastAllowed, now
 //@   ensures gLastAllowed == result0
@@ -119,9 +123,10 @@ package processorqueue
 //@   prop C06
 //@   mode seq
 //@   requires request != nil && p.metaData != nil
-//@   modifies request.gAdmitted, gLastAllowed, gEnqStamp, now
+//@   modifies request.gAdmitted, gLastAllowed, gEnqStamp, gGivenBack, now
 //@   on return when result do request.gAdmitted = true
 //@   ensures[allowed-only-if-quota-admits] result ==> gLastAllowed
+//@   ensures[an-admitted-request-keeps-its-place-in-the-quota] result ==> gGivenBack == old(gGivenBack)
 //@   ensures[not-in-drain-mode] result ==> !old(p.inDrainMode)
 //@   ensures[admitted-flag] result ==> request.gAdmitted
 //@   ensures[arrival-order-kept] !result ==> gEnqStamp[request.apiStream.GetID()] == request.timestamp
@@ -173,8 +178,8 @@ package processorqueue
 //@   prop C06
 //@   mode seq
 //@   requires p.requestsWatcher != nil && watchOK(p.requestsWatcher) && p.metaData != nil
-//@   modifies allof(Request.state), allof(Request.result), allof(Request.waitGroup), allof(Request.gAdmitted), opall(Request.waitGroup), gLastAllowed, gEnqStamp, now
-//@   loop 1 modifies allof(Request.state), allof(Request.result), allof(Request.waitGroup), allof(Request.gAdmitted), opall(Request.waitGroup), gLastAllowed, gEnqStamp
+//@   modifies allof(Request.state), allof(Request.result), allof(Request.waitGroup), allof(Request.gAdmitted), opall(Request.waitGroup), gLastAllowed, gEnqStamp, gGivenBack, now
+//@   loop 1 modifies allof(Request.state), allof(Request.result), allof(Request.waitGroup), allof(Request.gAdmitted), opall(Request.waitGroup), gLastAllowed, gEnqStamp, gGivenBack
 //@   ensures[watch-list-untouched] forall(k, string, (in(k, p.requestsWatcher.requests) <==> old(in(k, p.requestsWatcher.requests))) && p.requestsWatcher.requests[k] == old(p.requestsWatcher.requests[k]))
 
 // ---------------------------------------------------------------- the verdict handed to the flow
